@@ -843,3 +843,30 @@ Proof.
   destruct (last_state_of 100000 p1_cfg err_exit_ops) as [s|]; [|exact Hb].
   intros ti tm H. rewrite (inv_ring_b ti tm s H) in Hb. discriminate.
 Qed.
+
+(* ------------------------------------------------------------------ the hypotheses as booleans
+   (what a checker evaluates on the events of a real trace) *)
+Definition op_clock_okb (o : vop) : bool :=
+  match o with VoSetNow t => (0 <=? t) && (t <=? SAMPLE_BOUND) | _ => true end.
+Definition op_nolimitb (o : vop) : bool :=
+  match o with VoSetLimit (Some _) => false | _ => true end.
+Definition op_script_legitb (o : vop) : bool :=
+  match o with VoPoll sc => script_legit sc | _ => true end.
+
+Lemma op_clock_okb_ok o : op_clock_okb o = true <-> op_clock_ok o.
+Proof. destruct o; cbn [op_clock_okb op_clock_ok]; try tauto. rewrite andb_true_iff, !Z.leb_le. tauto. Qed.
+
+Lemma op_nolimitb_ok o : op_nolimitb o = true <-> op_nolimit o.
+Proof.
+  destruct o as [|[l|]| | | | | | | | |]; cbn [op_nolimitb op_nolimit]; try tauto;
+    split; intro H; try reflexivity; discriminate.
+Qed.
+
+Lemma op_script_legitb_ok o : op_script_legitb o = true <-> op_script_legit o.
+Proof. destruct o; cbn [op_script_legitb op_script_legit]; tauto. Qed.
+
+Lemma ops_clock_okb_ok ops : forallb op_clock_okb ops = true -> Forall op_clock_ok ops.
+Proof.
+  intro H. apply Forall_forall. intros o Ho. apply op_clock_okb_ok.
+  rewrite forallb_forall in H. apply H. exact Ho.
+Qed.
